@@ -109,7 +109,7 @@ def _ctor_init(text, cls, field, rel):
         raise TranslateError("%s::%s: initialiser %s(<n>) not found in %s" % (cls, cls, field, rel))
     return int(k.group(1))
 
-def _func_body(text, qual, rel):
+def _func_body_head(text, qual, rel):
     m = re.search(r"\b%s\s*\([^)]*\)\s*(?:const\s*)?\{" % re.escape(qual), text)
     if not m:
         raise TranslateError("function %s not found in %s" % (qual, rel))
@@ -148,16 +148,16 @@ def gen_elemstack_consts():
     out = HEADER + "namespace XV.Gen.ElemStackConsts\n\n"
     # ElemStack
     out += "def esStackInitCap : Nat := %d\n" % _ctor_init(t, "ElemStack", "fStackCapacity", rel)
-    n, d, i = _growth(_func_body(t, "ElemStack::expandMap", rel), "oldCap", "ElemStack::expandMap", True)
+    n, d, i = _growth(_func_body_head(t, "ElemStack::expandMap", rel), "oldCap", "ElemStack::expandMap", True)
     out += "def esMapInitCap : Nat := %d\ndef esMapGrowNum : Nat := %d\ndef esMapGrowDen : Nat := %d\n" % (i, n, d)
-    n, d, _ = _growth(_func_body(t, "ElemStack::expandStack", rel), "fStackCapacity", "ElemStack::expandStack", False)
+    n, d, _ = _growth(_func_body_head(t, "ElemStack::expandStack", rel), "fStackCapacity", "ElemStack::expandStack", False)
     out += "def esStackGrowNum : Nat := %d\ndef esStackGrowDen : Nat := %d\n" % (n, d)
     # WFElemStack
     out += "def wfStackInitCap : Nat := %d\n" % _ctor_init(t, "WFElemStack", "fStackCapacity", rel)
     out += "def wfMapInitCapCtor : Nat := %d\n" % _ctor_init(t, "WFElemStack", "fMapCapacity", rel)
-    n, d, i = _growth(_func_body(t, "WFElemStack::expandMap", rel), "fMapCapacity", "WFElemStack::expandMap", True)
+    n, d, i = _growth(_func_body_head(t, "WFElemStack::expandMap", rel), "fMapCapacity", "WFElemStack::expandMap", True)
     out += "def wfMapInitCap : Nat := %d\ndef wfMapGrowNum : Nat := %d\ndef wfMapGrowDen : Nat := %d\n" % (i, n, d)
-    n, d, _ = _growth(_func_body(t, "WFElemStack::expandStack", rel), "fStackCapacity", "WFElemStack::expandStack", False)
+    n, d, _ = _growth(_func_body_head(t, "WFElemStack::expandStack", rel), "fStackCapacity", "WFElemStack::expandStack", False)
     out += "def wfStackGrowNum : Nat := %d\ndef wfStackGrowDen : Nat := %d\n" % (n, d)
     # string pool ids start at 1 (XMLStringPool constructor: fCurId(1)); 0 = "not in the pool"
     sp = strip_c_comments(src("util/StringPool.cpp"))
@@ -549,7 +549,7 @@ def _need(pattern, text, rel, what):
         raise TranslateError("%s: %s not found (pattern %r)" % (rel, what, pattern))
     return m
 
-def _func_body(text, header_re, rel):
+def _func_body_c18(text, header_re, rel):
     m = re.search(header_re, text)
     if not m:
         raise TranslateError("%s: function %r not found" % (rel, header_re))
@@ -571,7 +571,7 @@ def gen_domheap():
     for nm in ("kInitialHeapAllocSize", "kMaxHeapAllocSize", "kMaxSubAllocationSize"):
         m = _need(r"static\s+XMLSize_t\s+%s\s*=\s*([0-9xXa-fA-F]+)\s*;" % nm, t, rel, nm)
         vals[nm] = c_int(m.group(1))
-    body = re.sub(r"\s+", "", _func_body(t, r"void\s*\*\s*DOMDocumentImpl::allocate\s*\(\s*XMLSize_t\s+amount\s*\)\s*\{", rel))
+    body = re.sub(r"\s+", "", _func_body_c18(t, r"void\s*\*\s*DOMDocumentImpl::allocate\s*\(\s*XMLSize_t\s+amount\s*\)\s*\{", rel))
     # the statements the code-shaped model mirrors, in order (whitespace-free)
     skeleton = [
         ("align", "amount=XMLPlatformUtils::alignPointerForNewBlockAllocation(amount);"),
@@ -615,7 +615,7 @@ def gen_domheap():
         pos = k + len(pat)
     if body[pos:] != "":
         raise TranslateError("%s: allocate(): unexpected trailing code: %s" % (rel, body[pos:][:120]))
-    setb = re.sub(r"\s+", "", _func_body(t, r"void\s+DOMDocumentImpl::setMemoryAllocationBlockSize\s*\(\s*XMLSize_t\s+size\s*\)\s*\{", rel))
+    setb = re.sub(r"\s+", "", _func_body_c18(t, r"void\s+DOMDocumentImpl::setMemoryAllocationBlockSize\s*\(\s*XMLSize_t\s+size\s*\)\s*\{", rel))
     if setb != "{if(size>kMaxSubAllocationSize)fHeapAllocSize=size;}":
         raise TranslateError("%s: setMemoryAllocationBlockSize no longer has the modelled shape: %s" % (rel, setb[:160]))
     probe = _probe_cxx(
@@ -643,7 +643,7 @@ def gen_domheap():
     ini = re.sub(r"\s+", "", strip_c_comments(src("util/XMLInitializer.cpp")))
     tm = re.search(r"voidXMLInitializer::terminateDOMHeap\(\)\{kInitialHeapAllocSize=(\w+);kMaxHeapAllocSize=(\w+);kMaxSubAllocationSize=(\w+);\}",
                    re.sub(r"\s+", "", t))
-    term_body = _func_body(ini, r"voidXMLInitializer::terminateStaticData\(\)\{", "util/XMLInitializer.cpp")
+    term_body = _func_body_c18(ini, r"voidXMLInitializer::terminateStaticData\(\)\{", "util/XMLInitializer.cpp")
     heap_reset = False
     if tm or "terminateDOMHeap" in ini:
         if not tm or "terminateDOMHeap();" not in term_body:
@@ -1039,4 +1039,330 @@ def gen_escapes():
         out += _lean_pairs("firstNameChar" + ver, _mask_ranges(tb, masks["gFirstNameCharMask"]))
         out += _lean_pairs("nameChar" + ver, _mask_ranges(tb, masks["gNameCharMask"]))
     out += "\nend XV.Gen.Escapes\n"
+    return out
+
+
+# ---- C01 (builder) ----
+# ------------------------------------------------------------------ C01: index / size / ownership arithmetic constants
+from fractions import Fraction
+
+def _func_body_c01(text, signature_re, rel):
+    """body (between the outermost braces) of the first function whose head matches signature_re"""
+    m = re.search(signature_re, text)
+    if not m:
+        raise TranslateError("function %s not found in %s" % (signature_re, rel))
+    i = text.find("{", m.end())
+    if i < 0:
+        raise TranslateError("no body for %s in %s" % (signature_re, rel))
+    depth, j = 1, i + 1
+    while depth and j < len(text):
+        if text[j] == "{": depth += 1
+        elif text[j] == "}": depth -= 1
+        j += 1
+    if depth:
+        raise TranslateError("unbalanced body for %s in %s" % (signature_re, rel))
+    return text[i + 1:j - 1]
+
+def _frac(lit, what):
+    try:
+        f = Fraction(lit)
+    except (ValueError, ZeroDivisionError):
+        raise TranslateError("%s: growth factor %r is not a decimal literal" % (what, lit))
+    if f <= 0:
+        raise TranslateError("%s: growth factor %r" % (what, lit))
+    return f.numerator, f.denominator
+
+def _one(pattern, text, what, flags=0):
+    ms = re.findall(pattern, text, flags)
+    if len(ms) != 1:
+        raise TranslateError("%s: pattern matched %d times (expected exactly 1)" % (what, len(ms)))
+    return ms[0]
+
+_CAST = r"\(\s*(?:XMLSize_t|unsigned\s+int)\s*\)"
+
+def _quarter_growth(body, var, what):
+    """`(XMLSize_t)(<var> * F)` possibly as  `<var> ? (XMLSize_t)(<var> * F) : N`; returns (num, den, zeroInit or None)"""
+    v = re.escape(var)
+    m = re.search(r"=\s*(?:%s|oldCap)\s*\?\s*%s\s*\(\s*(?:%s|oldCap)\s*\*\s*([0-9.]+)\s*\)\s*:\s*(\d+)\s*;" % (v, _CAST, v), body)
+    if m:
+        n, d = _frac(m.group(1), what)
+        return n, d, int(m.group(2))
+    m = re.search(r"=\s*%s\s*\(\s*%s\s*\*\s*([0-9.]+)\s*\)\s*;" % (_CAST, v), body)
+    if m:
+        n, d = _frac(m.group(1), what)
+        return n, d, None
+    raise TranslateError("%s: growth expression over %s not recognised" % (what, var))
+
+def _opt(v):
+    return "none" if v is None else "(some %d)" % v
+
+def _message_tables(rel):
+    t = strip_c_comments(src(rel))
+    out = []
+    for m in re.finditer(r"const\s+XMLCh\s+(\w+)\s*\[\s*\]\s*\[\s*(\d+)\s*\]\s*=\s*\{", t):
+        name, dim = m.group(1), int(m.group(2))
+        i = m.end(); depth = 1; j = i
+        while depth and j < len(t):
+            if t[j] == "{": depth += 1
+            elif t[j] == "}": depth -= 1
+            j += 1
+        body = t[i:j - 1]
+        rows = re.findall(r"\{([^{}]*)\}", body)
+        if re.sub(r"\{[^{}]*\}", "", body).replace(",", "").strip():
+            raise TranslateError("unparsed text in %s of %s" % (name, rel))
+        msgs = []
+        for r in rows:
+            vals = [c_int(x) for x in r.split(",") if x.strip()]
+            if not vals or vals[-1] != 0 or 0 in vals[:-1]:
+                raise TranslateError("%s: row not a NUL-terminated string" % name)
+            if len(vals) > dim:
+                raise TranslateError("%s: row longer than the declared dimension %d" % (name, dim))
+            msgs.append(vals[:-1])
+        ms = re.search(r"const\s+unsigned\s+int\s+%sSize\s*=\s*(\d+)\s*;" % re.escape(name), t)
+        if not ms:
+            raise TranslateError("%sSize not found" % name)
+        out.append((name, dim, int(ms.group(1)), msgs))
+    if [o[0] for o in out] != ["gXMLErrArray", "gXMLValidityArray", "gXMLExceptArray", "gXMLDOMMsgArray"]:
+        raise TranslateError("message tables changed: %r" % [o[0] for o in out])
+    return out
+
+ERRTEXT_FILES = ["internal/XMLScanner.cpp", "framework/XMLValidator.cpp", "validators/schema/XSDErrorReporter.cpp",
+                 "util/XMLException.cpp", "dom/DOMException.cpp", "dom/impl/DOMLSSerializerImpl.cpp",
+                 "dom/impl/DOMNormalizer.cpp", "xinclude/XIncludeUtils.cpp"]
+
+def _errtext_sites():
+    """every `const XMLSize_t N = K; XMLCh errText[N + D];` together with the size argument of the loadMsg calls that fill it"""
+    sites = []
+    for rel in ERRTEXT_FILES:
+        t = strip_c_comments(src(rel))
+        decls = list(re.finditer(r"XMLCh\s+errText\s*\[([^\]]*)\]\s*;", t))
+        calls = list(re.finditer(r"loadMsg\s*\(\s*[^,()]+(?:\([^()]*\))?[^,()]*,\s*errText\s*,\s*(\w+)", t))
+        if not decls or not calls:
+            raise TranslateError("%s: no errText buffer / loadMsg call found" % rel)
+        for k, d in enumerate(decls):
+            expr = d.group(1).strip()
+            m = re.fullmatch(r"(\w+)(?:\s*\+\s*(\d+))?", expr)
+            if not m:
+                raise TranslateError("%s: errText dimension %r not recognised" % (rel, expr))
+            name, plus = m.group(1), int(m.group(2) or 0)
+            cm = None
+            for c in re.finditer(r"const\s+(?:XMLSize_t|unsigned\s+int)\s+%s\s*=\s*(\d+)\s*;" % re.escape(name), t[:d.start()]):
+                cm = c
+            if name.isdigit():
+                kval, plus = int(name), plus
+                name = None
+            elif cm is None:
+                raise TranslateError("%s: constant %s not found" % (rel, name))
+            else:
+                kval = int(cm.group(1))
+            end = decls[k + 1].start() if k + 1 < len(decls) else len(t)
+            mine = [c for c in calls if d.end() <= c.start() < end]
+            if not mine:
+                raise TranslateError("%s: errText buffer #%d is never filled by loadMsg" % (rel, k))
+            for c in mine:
+                arg = c.group(1)
+                if arg.isdigit():
+                    passed = int(arg)
+                elif name is not None and arg == name:
+                    passed = kval
+                else:
+                    raise TranslateError("%s: loadMsg size argument %r is not the buffer's constant" % (rel, arg))
+                sites.append((rel, k, (kval if name is not None else 0) + plus if name is not None else kval + plus, passed))
+    return sites
+
+@translate.register("SafetyConsts")
+def gen_safety_consts():
+    out = HEADER + "namespace XV.Gen.Safety\n\n"
+    # ---- XMLBuffer
+    rel = "framework/XMLBuffer.hpp"; h = strip_c_comments(src(rel))
+    cap = _one(r"XMLBuffer\s*\(\s*const\s+XMLSize_t\s+capacity\s*=\s*(\d+)", h, "XMLBuffer default capacity")
+    slack = _one(r"manager->allocate\s*\(\s*\(\s*capacity\s*\+\s*(\d+)\s*\)\s*\*\s*sizeof\s*\(\s*XMLCh\s*\)\s*\)", h, "XMLBuffer ctor allocation")
+    _one(r"if\s*\(\s*fIndex\s*==\s*fCapacity\s*\)\s*ensureCapacity\s*\(\s*1\s*\)\s*;\s*fBuffer\s*\[\s*fIndex\s*\+\+\s*\]\s*=\s*toAppend\s*;", h, "XMLBuffer::append(XMLCh)")
+    if len(re.findall(r"if\s*\(\s*fIndex\s*\+\s*count\s*>=\s*fCapacity\s*\)\s*\{\s*ensureCapacity\s*\(\s*count\s*\)\s*;\s*\}\s*memcpy\s*\(\s*&fBuffer\s*\[\s*fIndex\s*\]\s*,\s*chars\s*,\s*count\s*\*\s*sizeof\s*\(\s*XMLCh\s*\)\s*\)\s*;\s*fIndex\s*\+=\s*count\s*;", h)) != 2:
+        raise TranslateError("XMLBuffer::append(chars[,count]) guard/copy shape changed")
+    rel = "framework/XMLBuffer.cpp"; c = strip_c_comments(src(rel))
+    body = _func_body_c01(c, r"void\s+XMLBuffer::ensureCapacity\s*\(", rel)
+    mul = _one(r"XMLSize_t\s+newCap\s*=\s*\(\s*fIndex\s*\+\s*extraNeeded\s*\)\s*\*\s*(\d+)\s*;", body, "XMLBuffer::ensureCapacity newCap")
+    slack2 = _one(r"allocate\s*\(\s*\(\s*newCap\s*\+\s*(\d+)\s*\)\s*\*\s*sizeof\s*\(\s*XMLCh\s*\)\s*\)", body, "XMLBuffer::ensureCapacity allocation")
+    _one(r"if\s*\(\s*newCap\s*>\s*fCapacity\s*\)", body, "XMLBuffer::ensureCapacity realloc test")
+    _one(r"if\s*\(\s*fFullHandler\s*&&\s*\(\s*newCap\s*>\s*fFullSize\s*\)\s*\)", body, "XMLBuffer::ensureCapacity full-handler test")
+    if len(re.findall(r"fIndex\s*\+\s*extraNeeded\s*<=\s*fFullSize", body)) != 2 or len(re.findall(r"newCap\s*=\s*fFullSize\s*;", body)) != 2:
+        raise TranslateError("XMLBuffer::ensureCapacity full-handler branch changed")
+    out += "-- framework/XMLBuffer.{hpp,cpp}\n"
+    out += "def xmlBufferDefaultCap : Nat := %s\ndef xmlBufferCtorSlack : Nat := %s\ndef xmlBufferGrowMul : Nat := %s\ndef xmlBufferGrowSlack : Nat := %s\n\n" % (cap, slack, mul, slack2)
+    # ---- ElemStack / WFElemStack
+    rel = "internal/ElemStack.cpp"; c = strip_c_comments(src(rel))
+    k = c.find("WFElemStack::WFElemStack")
+    if k < 0:
+        raise TranslateError("WFElemStack constructor not found")
+    es, wf = c[:k], c[k:]
+    es_init = _one(r"fStackCapacity\s*\(\s*(\d+)\s*\)", es, "ElemStack initial stack capacity")
+    wf_init = _one(r"fStackCapacity\s*\(\s*(\d+)\s*\)", wf, "WFElemStack initial stack capacity")
+    wf_map0 = _one(r"fMapCapacity\s*\(\s*(\d+)\s*\)", wf, "WFElemStack initial map capacity")
+    for what, txt, need in (("ElemStack", es, 2), ("WFElemStack", wf, 2)):
+        if len(re.findall(r"if\s*\(\s*fStackTop\s*==\s*fStackCapacity\s*\)\s*expandStack\s*\(\s*\)\s*;", txt)) != need:
+            raise TranslateError(what + ": push guard `fStackTop == fStackCapacity` changed")
+    if len(re.findall(r"fMapCount\s*==\s*\w+->fMapCapacity\s*\)\s*expandMap", es)) != 2:
+        raise TranslateError("ElemStack::addPrefix/addGlobalPrefix guard changed")
+    _one(r"if\s*\(\s*curRow->fChildCount\s*==\s*curRow->fChildCapacity\s*\)", es, "ElemStack::addChild guard")
+    _one(r"if\s*\(\s*\(\s*unsigned\s+int\s*\)\s*curRow->fTopPrefix\s*\+\s*1\s*==\s*fMapCapacity\s*\)\s*expandMap\s*\(\s*\)\s*;", wf, "WFElemStack::addPrefix guard")
+    rows = []
+    rows.append(("elemStack", int(es_init)) + _quarter_growth(_func_body_c01(es, r"void\s+ElemStack::expandStack\s*\(", rel), "fStackCapacity", "ElemStack::expandStack"))
+    rows.append(("elemMap", 0) + _quarter_growth(_func_body_c01(es, r"void\s+ElemStack::expandMap\s*\(", rel), "oldCap", "ElemStack::expandMap"))
+    rows.append(("elemChild", 0) + _quarter_growth(_func_body_c01(es, r"XMLSize_t\s+ElemStack::addChild\s*\(", rel), "curRow->fChildCapacity", "ElemStack::addChild"))
+    rows.append(("wfElemStack", int(wf_init)) + _quarter_growth(_func_body_c01(wf, r"void\s+WFElemStack::expandStack\s*\(", rel), "fStackCapacity", "WFElemStack::expandStack"))
+    rows.append(("wfElemMap", int(wf_map0)) + _quarter_growth(_func_body_c01(wf, r"void\s+WFElemStack::expandMap\s*\(", rel), "fMapCapacity", "WFElemStack::expandMap"))
+    rel = "validators/schema/NamespaceScope.cpp"; ns = strip_c_comments(src(rel))
+    ns_inits = set(re.findall(r"fStackCapacity\s*\(\s*(\d+)\s*\)", ns))
+    if len(ns_inits) != 1:
+        raise TranslateError("NamespaceScope initial stack capacity: %r" % sorted(ns_inits))
+    if len(re.findall(r"if\s*\(\s*fStackTop\s*==\s*fStackCapacity\s*\)\s*expandStack\s*\(\s*\)\s*;", ns)) != 1:
+        raise TranslateError("NamespaceScope::increaseDepth guard changed")
+    if len(re.findall(r"fMapCount\s*==\s*\w+->fMapCapacity\s*\)\s*expandMap", ns)) != 1:
+        raise TranslateError("NamespaceScope::addPrefix guard changed")
+    rows.append(("nsScopeStack", int(ns_inits.pop())) + _quarter_growth(_func_body_c01(ns, r"void\s+NamespaceScope::expandStack\s*\(", rel), "fStackCapacity", "NamespaceScope::expandStack"))
+    rows.append(("nsScopeMap", 0) + _quarter_growth(_func_body_c01(ns, r"void\s+NamespaceScope::expandMap\s*\(", rel), "oldCap", "NamespaceScope::expandMap"))
+    out += "-- internal/ElemStack.cpp, validators/schema/NamespaceScope.cpp: (initial capacity, growth numerator, denominator, capacity used when the old capacity is 0)\n"
+    out += "structure Quarter where\n  init : Nat\n  num : Nat\n  den : Nat\n  zeroInit : Option Nat\n  deriving Repr, DecidableEq\n\n"
+    for nm, init, n, d, z in rows:
+        out += "def %s : Quarter := ⟨%d, %d, %d, %s⟩\n" % (nm, init, n, d, _opt(z))
+    out += "def quarters : List (String × Quarter) := [%s]\n\n" % ", ".join('("%s", %s)' % (r[0], r[0]) for r in rows)
+    # ---- RangeToken
+    rel = "util/regx/RangeToken.cpp"; c = strip_c_comments(src(rel))
+    rinit = _one(r"const\s+unsigned\s+int\s+RangeToken::INITIALSIZE\s*=\s*(\d+)\s*;", c, "RangeToken::INITIALSIZE")
+    _one(r"fMaxCount\s*\(\s*INITIALSIZE\s*\)", c, "RangeToken ctor fMaxCount")
+    body = _func_body_c01(c, r"void\s+RangeToken::expand\s*\(", rel)
+    _one(r"unsigned\s+int\s+newMax\s*=\s*fElemCount\s*\+\s*length\s*;", body, "RangeToken::expand newMax")
+    f = _one(r"unsigned\s+int\s+minNewMax\s*=\s*\(\s*unsigned\s+int\s*\)\s*\(\s*\(\s*double\s*\)\s*fElemCount\s*\*\s*([0-9.]+)\s*\)\s*;", body, "RangeToken::expand minNewMax")
+    _one(r"if\s*\(\s*newMax\s*<\s*minNewMax\s*\)\s*newMax\s*=\s*minNewMax\s*;", body, "RangeToken::expand max")
+    addb = _func_body_c01(c, r"void\s+RangeToken::addRange\s*\(", rel)
+    g = re.search(r"if\s*\(\s*fElemCount\s*\+\s*(\d+)\s*(>=|>)\s*fMaxCount\s*\)\s*\{\s*expand\s*\(\s*(\d+)\s*\)\s*;", addb)
+    if not g:
+        raise TranslateError("RangeToken::addRange growth guard changed")
+    n, d = _frac(f, "RangeToken::expand")
+    out += "-- util/regx/RangeToken.cpp\n"
+    out += "def rangeTokenInit : Nat := %s\ndef rangeTokenNum : Nat := %d\ndef rangeTokenDen : Nat := %d\n" % (rinit, n, d)
+    out += "def rangeTokenGuardAdd : Nat := %s\ndef rangeTokenGuardStrict : Bool := %s\ndef rangeTokenExpandBy : Nat := %s\n\n" % (g.group(1), "true" if g.group(2) == ">" else "false", g.group(3))
+    # ---- ValueVectorOf / BaseRefVectorOf
+    rel = "util/ValueVectorOf.c"; c = strip_c_comments(src(rel))
+    body = _func_body_c01(c, r"ValueVectorOf<TElem>::\s*ensureExtraCapacity\s*\(", rel)
+    _one(r"XMLSize_t\s+newMax\s*=\s*fCurCount\s*\+\s*length\s*;", body, "ValueVectorOf newMax")
+    _one(r"if\s*\(\s*newMax\s*>\s*fMaxCount\s*\)", body, "ValueVectorOf test")
+    f = _one(r"XMLSize_t\s+minNewMax\s*=\s*\(\s*XMLSize_t\s*\)\s*\(\s*\(\s*double\s*\)\s*fCurCount\s*\*\s*([0-9.]+)\s*\)\s*;", body, "ValueVectorOf minNewMax")
+    _one(r"if\s*\(\s*newMax\s*<\s*minNewMax\s*\)\s*newMax\s*=\s*minNewMax\s*;", body, "ValueVectorOf max")
+    _one(r"ensureExtraCapacity\s*\(\s*1\s*\)\s*;\s*fElemList\s*\[\s*fCurCount\s*\+\+\s*\]\s*=\s*toAdd\s*;", c, "ValueVectorOf::addElement")
+    n, d = _frac(f, "ValueVectorOf")
+    out += "-- util/ValueVectorOf.c, util/BaseRefVectorOf.c\ndef valueVectorNum : Nat := %d\ndef valueVectorDen : Nat := %d\n" % (n, d)
+    rel = "util/BaseRefVectorOf.c"; c = strip_c_comments(src(rel))
+    body = _func_body_c01(c, r"BaseRefVectorOf<TElem>::\s*ensureExtraCapacity\s*\(", rel)
+    _one(r"XMLSize_t\s+newMax\s*=\s*fCurCount\s*\+\s*length\s*;", body, "BaseRefVectorOf newMax")
+    _one(r"if\s*\(\s*newMax\s*<=\s*fMaxCount\s*\)\s*return\s*;", body, "BaseRefVectorOf test")
+    dv = _one(r"if\s*\(\s*newMax\s*<\s*fMaxCount\s*\+\s*fMaxCount\s*/\s*(\d+)\s*\)\s*newMax\s*=\s*fMaxCount\s*\+\s*fMaxCount\s*/\s*\1\s*;", body, "BaseRefVectorOf growth")
+    out += "def refVectorHalfDiv : Nat := %s\n\n" % dv
+    # ---- DOMBuffer
+    rel = "dom/impl/DOMStringPool.hpp"; h = strip_c_comments(src(rel))
+    dcap = _one(r"DOMBuffer\s*\(\s*DOMDocumentImpl\s*\*\s*doc\s*,\s*XMLSize_t\s+capacity\s*=\s*(\d+)\s*\)", h, "DOMBuffer default capacity")
+    if len(re.findall(r"if\s*\(\s*fIndex\s*\+\s*count\s*>=\s*fCapacity\s*\)\s*expandCapacity\s*\(\s*count(?:\s*,\s*true)?\s*\)\s*;\s*memcpy\s*\(\s*&fBuffer\s*\[\s*fIndex\s*\]", h)) != 3:
+        raise TranslateError("DOMBuffer::append* guard/copy shape changed")
+    rel = "dom/impl/DOMStringPool.cpp"; c = strip_c_comments(src(rel))
+    body = _func_body_c01(c, r"void\s+DOMBuffer::expandCapacity\s*\(", rel)
+    f = _one(r"const\s+XMLSize_t\s+newCap\s*=\s*\(\s*XMLSize_t\s*\)\s*\(\s*\(\s*fIndex\s*\+\s*extraNeeded\s*\)\s*\*\s*([0-9.]+)\s*\)\s*;", body, "DOMBuffer::expandCapacity newCap")
+    ds = _one(r"allocate\s*\(\s*\(\s*newCap\s*\+\s*(\d+)\s*\)\s*\*\s*sizeof\s*\(\s*XMLCh\s*\)\s*\)", body, "DOMBuffer::expandCapacity allocation")
+    _one(r"memcpy\s*\(\s*newBuf\s*,\s*fBuffer\s*,\s*fCapacity\s*\*\s*sizeof\s*\(\s*XMLCh\s*\)\s*\)", body, "DOMBuffer::expandCapacity copy")
+    n, d = _frac(f, "DOMBuffer")
+    out += "-- dom/impl/DOMStringPool.{hpp,cpp}\ndef domBufferDefaultCap : Nat := %s\ndef domBufferNum : Nat := %d\ndef domBufferDen : Nat := %d\ndef domBufferSlack : Nat := %s\n\n" % (dcap, n, d, ds)
+    # ---- character references
+    out += "-- scanCharRef accumulators: radix constants and the overflow guard (none = the loop has no guard)\n"
+    for nm, rel, sig in (("xmlScanner", "internal/XMLScanner.cpp", r"bool\s+XMLScanner::scanCharRef\s*\("),
+                         ("dtdScanner", "validators/DTD/DTDScanner.cpp", r"bool\s+DTDScanner::scanCharRef\s*\(")):
+        body = _func_body_c01(strip_c_comments(src(rel)), sig, rel)
+        _one(r"unsigned\s+int\s+value\s*=\s*0\s*;", body, nm + " accumulator type")
+        r0 = _one(r"unsigned\s+int\s+radix\s*=\s*(\d+)\s*;", body, nm + " default radix")
+        r1 = set(re.findall(r"radix\s*=\s*(\d+)\s*;", body)) - {r0}
+        if len(r1) != 1:
+            raise TranslateError(nm + ": hexadecimal radix assignment changed")
+        m = re.search(r"value\s*=\s*\(\s*value\s*\*\s*radix\s*\)\s*\+\s*nextVal\s*;(.*?)gotOne\s*=\s*true", body, re.S)
+        if not m:
+            raise TranslateError(nm + ": accumulator statement changed")
+        _one(r"if\s*\(\s*nextVal\s*>=\s*radix\s*\)", body, nm + " digit/radix test")
+        g = re.search(r"^\s*if\s*\(\s*value\s*>\s*(0[xX][0-9a-fA-F]+|\d+)\s*\)\s*\{[^{}]*return\s+false\s*;[^{}]*\}", m.group(1))
+        fin = re.search(r"if\s*\(\s*value\s*>=\s*(0x[0-9a-fA-F]+)\s*&&\s*value\s*<=\s*(0x[0-9a-fA-F]+)\s*\)(.*?)else\s+if\s*\(\s*value\s*<=\s*(0x[0-9a-fA-F]+)\s*\)", body, re.S)
+        if not fin:
+            raise TranslateError(nm + ": final range tests changed")
+        sur = re.search(r"value\s*-=\s*(0x[0-9a-fA-F]+)\s*;\s*\w+\s*=\s*XMLCh\s*\(\s*\(\s*value\s*>>\s*(\d+)\s*\)\s*\+\s*(0x[0-9a-fA-F]+)\s*\)\s*;\s*second\s*=\s*XMLCh\s*\(\s*\(\s*value\s*&\s*(0x[0-9a-fA-F]+)\s*\)\s*\+\s*(0x[0-9a-fA-F]+)\s*\)\s*;", fin.group(3))
+        if not sur:
+            raise TranslateError(nm + ": surrogate split changed")
+        out += "def %sRadixDec : Nat := %s\ndef %sRadixHex : Nat := %s\ndef %sGuard : Option Nat := %s\n" % (nm, r0, nm, r1.pop(), nm, _opt(int(g.group(1), 0) if g else None))
+        out += "def %sPairLo : Nat := %d\ndef %sPairHi : Nat := %d\ndef %sSingleMax : Nat := %d\n" % (nm, int(fin.group(1), 16), nm, int(fin.group(2), 16), nm, int(fin.group(4), 16))
+        out += "def %sSurr : List Nat := [%s]\n" % (nm, ", ".join(str(int(x, 0)) for x in sur.groups()))
+    out += "\n"
+    # ---- error text buffers
+    sites = _errtext_sites()
+    out += "-- every `XMLCh errText[...]` filled by loadMsg: (file, ordinal in file, array length, maxChars passed to loadMsg)\n"
+    out += "def errTextSites : List (String × Nat × Nat × Nat) := [\n" + ",\n".join('  ("%s", %d, %d, %d)' % s for s in sites) + "]\n\n"
+    rel = "util/XMLString.cpp"
+    body = _func_body_c01(strip_c_comments(src(rel)), r"XMLSize_t\s+XMLString::replaceTokens\s*\(", rel)
+    guarded = len(re.findall(r"curOutInd\s*<\s*maxChars", body))
+    # 3 = outer loop, plain-copy loop, replacement-copy loop; a 4th guards the escaped-brace copy
+    if guarded not in (3, 4):
+        raise TranslateError("XMLString::replaceTokens: %d output guards (expected 3 or 4)" % guarded)
+    _one(r"errText\s*\[\s*curOutInd\s*\]\s*=\s*0\s*;", body, "replaceTokens terminator")
+    out += "-- util/XMLString.cpp replaceTokens: is the copy of a brace that does not start a {0}..{3} token guarded by curOutInd < maxChars?\n"
+    out += "def replaceTokensBraceGuarded : Bool := %s\n\n" % ("true" if guarded == 4 else "false")
+    rel = "util/MsgLoaders/InMemory/InMemMsgLoader.cpp"
+    lb = _func_body_c01(strip_c_comments(src(rel)), r"bool\s+InMemMsgLoader::loadMsg\s*\(", rel)
+    _one(r"XMLCh\s*\*\s*endPtr\s*=\s*toFill\s*\+\s*maxChars\s*;", lb, "InMemMsgLoader::loadMsg end pointer")
+    _one(r"while\s*\(\s*\*srcPtr\s*&&\s*\(\s*outPtr\s*<\s*endPtr\s*\)\s*\)", lb, "InMemMsgLoader::loadMsg copy loop")
+    # ---- DOM document heap
+    rel = "dom/impl/DOMDocumentImpl.cpp"; c = strip_c_comments(src(rel))
+    vals = {}
+    for nm in ("kInitialHeapAllocSize", "kMaxHeapAllocSize", "kMaxSubAllocationSize"):
+        vals[nm] = int(_one(r"static\s+XMLSize_t\s+%s\s*=\s*(0x[0-9a-fA-F]+|\d+)\s*;" % nm, c, nm), 0)
+    body = _func_body_c01(c, r"void\s*\*\s*DOMDocumentImpl::allocate\s*\(", rel)
+    big = re.search(r"if\s*\(\s*amount\s*>\s*kMaxSubAllocationSize\s*(\)|\|\|\s*\(\s*amount\s*>\s*fFreeBytesRemaining\s*&&\s*\(\s*fHeapAllocSize\s*<\s*sizeOfHeader\s*\|\|\s*amount\s*>\s*fHeapAllocSize\s*-\s*sizeOfHeader\s*\)\s*\)\s*\))", body)
+    if not big:
+        raise TranslateError("DOMDocumentImpl::allocate big-block test changed")
+    routed = big.group(1) != ")"
+    _one(r"if\s*\(\s*amount\s*>\s*fFreeBytesRemaining\s*\)", body, "DOMDocumentImpl::allocate refill test")
+    clamp = bool(re.search(r"allocate\s*\(\s*fHeapAllocSize\s*\)", body)) is False
+    _one(r"fFreePtr\s*\+=\s*amount\s*;\s*fFreeBytesRemaining\s*-=\s*amount\s*;", body, "DOMDocumentImpl::allocate carve")
+    sb = _func_body_c01(c, r"void\s+DOMDocumentImpl::setMemoryAllocationBlockSize\s*\(", rel)
+    _one(r"if\s*\(\s*size\s*>\s*kMaxSubAllocationSize\s*\)\s*fHeapAllocSize\s*=\s*size\s*;", sb, "setMemoryAllocationBlockSize")
+    out += "-- dom/impl/DOMDocumentImpl.cpp\n"
+    out += "def domInitialHeap : Nat := %d\ndef domMaxHeap : Nat := %d\ndef domMaxSub : Nat := %d\n" % (vals["kInitialHeapAllocSize"], vals["kMaxHeapAllocSize"], vals["kMaxSubAllocationSize"])
+    out += "-- does allocate() size a fresh block independently of the request (plain `allocate(fHeapAllocSize)`)?\n"
+    out += "def domAllocateBlockUnclamped : Bool := %s\n" % ("false" if clamp else "true")
+    out += "-- does allocate() hand a request that a fresh block could not hold to the system allocator (big-block path)?\n"
+    out += "def domAllocateRoutesMisfit : Bool := %s\n\n" % ("true" if routed else "false")
+    # ---- XMLReader: raw buffer size and the UCS-4 BOM removal loop
+    rel = "internal/XMLReader.hpp"; h = strip_c_comments(src(rel))
+    m = re.search(r"kRawBufSize\s*=\s*(\d+)\s*\*\s*(\d+)", h)
+    if not m:
+        raise TranslateError("kRawBufSize not found")
+    rel = "internal/XMLReader.cpp"; c = strip_c_comments(src(rel))
+    body = _func_body_c01(c, r"void\s+XMLReader::doInitDecode\s*\(", rel)
+    lm = re.search(r"for\s*\(\s*XMLSize_t\s+i\s*=\s*0\s*;\s*i\s*<\s*fRawBytesAvail\s*(?:-\s*(\d+)\s*)?;\s*i\+\+\s*\)\s*fRawByteBuf\s*\[\s*i\s*\]\s*=\s*fRawByteBuf\s*\[\s*i\s*\+\s*(\d+)\s*\]\s*;\s*fRawBytesAvail\s*-=\s*(\d+)\s*;", body)
+    if not lm:
+        raise TranslateError("XMLReader::doInitDecode UCS-4 BOM removal loop changed")
+    out += "-- internal/XMLReader.{hpp,cpp}: for (i = 0; i < fRawBytesAvail - slack; i++) buf[i] = buf[i + shift]\n"
+    out += "def rawBufSize : Nat := %d\ndef ucs4BomLoopSlack : Nat := %d\ndef ucs4BomLoopShift : Nat := %d\ndef ucs4BomLen : Nat := %d\n\n" % (
+        int(m.group(1)) * int(m.group(2)), int(lm.group(1) or 0), int(lm.group(2)), int(lm.group(3)))
+    out += "end XV.Gen.Safety\n"
+    return out
+
+
+@translate.register("SafetyMsgs")
+def gen_safety_msgs():
+    out = HEADER + "namespace XV.Gen.SafetyMsgs\n\n"
+    tabs = _message_tables("util/MsgLoaders/InMemory/XercesMessages_en_US.hpp")
+    out += "-- util/MsgLoaders/InMemory/XercesMessages_en_US.hpp: each message packed little-endian in base 65536\n"
+    out += "-- (first code unit = lowest digit; code units are non-zero, so the number determines the text)\n"
+    out += "def unpack : Nat → Nat → List Nat\n  | 0, _ => []\n  | fuel + 1, n => if n = 0 then [] else (n % 65536) :: unpack fuel (n / 65536)\n\n"
+    for name, dim, size, msgs in tabs:
+        packed = [sum(v << (16 * k) for k, v in enumerate(ms)) for ms in msgs]
+        out += "def %sDim : Nat := %d\ndef %sSize : Nat := %d\n" % (name, dim, name, size)
+        out += "def %sPacked : List Nat := [\n" % name + ",\n".join("  " + str(v) for v in packed) + "]\n"
+        out += "def %s : List (List Nat) := %sPacked.map (unpack %sDim)\n" % (name, name, name)
+    out += "def messageTables : List (String × Nat × Nat × List (List Nat)) := [%s]\n\n" % ", ".join('("%s", %sDim, %sSize, %s)' % (t[0], t[0], t[0], t[0]) for t in tabs)
+    out += "end XV.Gen.SafetyMsgs\n"
     return out
